@@ -257,6 +257,7 @@ func init() {
 		"verifNetClosed": func(e *Exec, t *Thread, a []Value, g bool) (Value, bool) {
 			return done(e.C.BVConst(64, uint64(e.netClosed)))
 		},
+		"verifNative": func(e *Exec, t *Thread, a []Value, g bool) (Value, bool) { return done(e.C.False) },
 		"verifFail": func(e *Exec, t *Thread, a []Value, g bool) (Value, bool) {
 			panic(pathEnd{kind: "assert", detail: e.strArg(a[0]), site: e.callerPos(t)})
 		},
